@@ -33,8 +33,8 @@ def _build_and_run(crate, profile, hooks):
 
 # ---- mapping of builder histories (E1 / E2 format, synthetic shapes) to executable definitions
 # shape (size, align) -> palette indices of mkexec.rs (droppable first: ledger-tracked)
-SHAPES = {(1, 1): [0], (2, 2): [1], (4, 4): [10, 2], (8, 8): [3], (3, 1): [4], (24, 8): [5, 8], (0, 1): [6, 9], (8, 4): [11], (0, 8): [12]}
-COPY_TYPES = {0, 1, 2, 3, 4, 9, 11, 12}
+SHAPES = {(1, 1): [0], (2, 2): [1], (4, 4): [10, 2], (8, 8): [3, 14], (3, 1): [4], (24, 8): [5, 8, 13], (0, 1): [6, 9], (8, 4): [11], (0, 8): [12]}
+COPY_TYPES = {0, 1, 2, 3, 4, 9, 11, 12, 14}
 
 
 def approx_shape(size, align):
